@@ -112,6 +112,36 @@ def finder_calls(rng: random.Random, mol, seg):
                                 "call": {"type": ln[0], "chr": int(ln[1]), "rs": int(ln[2]), "re": int(ln[3]),
                                          "qid": int(ln[4]), "qs": int(ln[5]), "qe": int(ln[6]), "len": int(ln[7]),
                                          "listed_under": typ}})
+    # the segment-based finder with TWO junctions of opposite sign in one molecule (insertion first / deletion first)
+    for trial in range(4):
+        n = rng.randint(12, 22)
+        r0 = rng.randint(1, 25)
+        b1 = rng.randint(1, n // 2 - 2)
+        b2 = rng.randint(n // 2, n - 3)
+        s1 = rng.choice([-1, 1]) * rng.choice([300, 1500, 4000, 20000])
+        s2 = -1 * (1 if s1 > 0 else -1) * rng.choice([300, 1500, 4000, 20000])
+        qpos = []
+        for j in range(n):
+            qpos.append(ref.positions[r0 - 1 + j] - ref.positions[r0 - 1] + (s1 if j > b1 else 0) + (s2 if j > b2 else 0))
+        if min(qpos) < 0:
+            qpos = [v - min(qpos) for v in qpos]
+        if sorted(qpos) != qpos:
+            continue
+        _QID[0] += 1
+        qid = 100 + _QID[0]
+        pairs = [SimpleNamespace(reference=SimpleNamespace(siteId=r0 + j), query=SimpleNamespace(siteId=j + 1))
+                 for j in range(n)]
+        al = SimpleNamespace(queryId=qid, referenceId=2, alignedPairs=pairs)
+        res = seg.look_for_indels_in_breakage({2: [al]}, {2: ref}, {qid: SimpleNamespace(positions=qpos)},
+                                              {qid: [[b1, "x"], [b2, "x"]]})
+        got = []
+        for typ, lines in res.items():
+            for ln in lines:
+                c = {"type": ln[0], "chr": int(ln[1]), "rs": int(ln[2]), "re": int(ln[3]), "qid": int(ln[4]),
+                     "qs": int(ln[5]), "qe": int(ln[6]), "len": int(ln[7])}
+                got.append(c)
+                out.append({"kind": "call", "finder": "segment2", "call": dict(c, listed_under=typ)})
+        out.append({"kind": "finder", "finder": "segment2", "calls": got, "fed": {"qid": qid, "chr": 2, "nbreak": 2}})
     return out
 
 
